@@ -35,6 +35,7 @@ type LedgerView struct {
 	Vols    map[string]*VolRow // account\x00asset
 	Schemas map[string]*ledger.Schema
 	State   string
+	Feats   map[string]string
 }
 
 func ViewOf(snap map[rowKey]any) map[string]*LedgerView {
@@ -51,6 +52,7 @@ func ViewOf(snap map[rowKey]any) map[string]*LedgerView {
 		switch k.Table {
 		case "ledger":
 			get(k.Key).State = val.(*LedgerRow).State
+			get(k.Key).Feats = val.(*LedgerRow).Features
 		case "tx":
 			t := val.(*ledger.Transaction)
 			get(k.Ledger).Txs[*t.ID] = t
